@@ -670,6 +670,9 @@ class TupleType(Type):
             return True
         seen.add(self)
         if type(self) == type(other) or any(parent.is_subtype(other, seen, indent + 1) for parent in self.parents):
+            # A tuple type without element types accepts tuples of any length
+            if other.element_types and len(self.element_types) != len(other.element_types):
+                return False
             return all(e.is_subtype(e2, seen, indent+1)
                        for e, e2 in zip(self.element_types, other.element_types))
         return False
@@ -1037,11 +1040,15 @@ class TupleConstructor(BuiltinConstructorType):
             # TODO: How do we handle completely generic tuples?
             # For now, we'll treat them as if they were empty tuples...
             return TupleType([])
+        # Several type arguments (e.g., tuple[int, str]) arrive bundled up
+        if isinstance(element_type, TupleType):
+            element_type = element_type.element_types
         # Assume single elements are actually just a tuple of length one
         if not isinstance(element_type, (tuple, set, list)):
             element_type = [element_type]
         element_type = [e.definition(self, e, None, [], [], location)
-                        for e in element_type if isinstance(e, BuiltinConstructorType)]
+                        if isinstance(e, BuiltinConstructorType) else e
+                        for e in element_type]
         result_type = TupleType(element_type)
         if arguments:
             result_type = specify_subtype(result_type, arguments[0])
